@@ -1044,6 +1044,15 @@ class Interp:
                     raise OutOfSubset("slice assignment to a non-list")
                 target[:] = self.iterate_all(v)
                 return
+            if isinstance(t.slice, ast.Slice) and t.slice.step is None:
+                # `xs[a:b] = ys` with concrete bounds on a concrete list: python's own splice (same object)
+                target = self.eval(t.value, env)
+                lo = self.eval(t.slice.lower, env) if t.slice.lower is not None else None
+                hi = self.eval(t.slice.upper, env) if t.slice.upper is not None else None
+                if not isinstance(target, list) or not all(b is None or (isinstance(b, int) and not isinstance(b, bool)) for b in (lo, hi)):
+                    raise OutOfSubset("slice assignment to a non-list / with symbolic bounds")
+                target[lo:hi] = self.iterate_all(v)
+                return
             self.store_subscript(self.eval(t.value, env), self.eval(t.slice, env), v)
         else:
             raise OutOfSubset(f"assignment target {type(t).__name__}")
@@ -1813,12 +1822,30 @@ class Interp:
         if fenv.fn is None or fenv.fn.fq != self.top_target or self.depth != 0:
             return
         c = self.top_contract or self.reg.get(self.top_target)
-        if c is None or not c.yield_effect:
+        if c is None:
             return
-        e = Env(parent=fenv, module=fenv.module)
-        e.vars["event"] = v
-        new = {g: self.eval_spec(cl, e) for g, cl in c.yield_effect.items()}
-        self.ghost.update(new)
+        if c.yield_effect:
+            e = Env(parent=fenv, module=fenv.module)
+            e.vars["event"] = v
+            new = {g: self.eval_spec(cl, e) for g, cl in c.yield_effect.items()}
+            self.ghost.update(new)
+        for pth, rule in getattr(c, "yield_interference", {}).items():
+            # the consumer holds the event now: it may SET the flag (never clear it) before the generator is resumed
+            if rule != "set":
+                raise OutOfSubset(f"yield_interference rule {rule!r}")
+            parts = pth.split(".")
+            obj = fenv.lookup(parts[0])
+            for p_ in parts[1:-1]:
+                obj = self.getattr(obj, p_)
+            if not isinstance(obj, VObj):
+                raise OutOfSubset(f"yield_interference target {pth}")
+            old = truthy(obj.fields[parts[-1]])
+            if old is True:
+                continue
+            fresh = z3.Bool(self.path.fresh(f"consumer-sets:{pth}"))
+            if old is not False:
+                self.path.assume(z3.Implies(old, fresh))
+            obj.fields[parts[-1]] = wrap(fresh)
 
     def e_YieldFrom(self, n, env):
         v = self.eval(n.value, env)
